@@ -110,10 +110,11 @@ package atree
 //@ # identifier: root exactly when the head says so, counted and sized from the decoded elements (prefix 5 for a root, 21 otherwise)
 //@ func newArrayDataSlabFromDataV1@content(id, h, data, decMode, decodeStorable, decodeTypeInfo) (slab, err)  serves C06 C07 C08
 //@   option assume-nonnil-params true
-//@   ensures[C07 C08] err == nil ==> slab != nil && fresh(slab) && slab.header.slabID == id && !slab.inlined && (slab.extraData != nil) == bit(h[1], 7)
+//@   ensures[C07 C08] err == nil ==> slab != nil && slab.header.slabID == id && !slab.inlined
 //@   ensures[C06] err == nil ==> slab.header.count == len(slab.elements) && slab.header.size == ite(bit(h[1], 7), 5, 21) + sum(bs, slab.elements, len(slab.elements))
 //@   ensures[C07] err == nil && !(h[0] / 16 != 0 && bit(h[0], 1)) && !(h[0] / 16 == 0 && !bit(h[1], 7)) ==> slab.next == SlabIDUndefined
 //@   ensures[C07] err == nil ==> (forall k :: 0 <= k && k < len(slab.elements) ==> slab.elements[k] != nil)
+//@   ensures[C07 C08] err == nil ==> (slab.extraData != nil) == bit(h[1], 7)
 //@   modifies heap
 //@   loop 1: invariant 0 <= i && i <= len(elements) && slabSize == ite(bit(h[1], 7), 5, 21) + sum(bs, elements, i) && (forall k :: 0 <= k && k < i ==> elements[k] != nil)
 
